@@ -41,7 +41,7 @@ for d in sorted(os.listdir(os.path.join(ROOT, "seeded")), key=key):
     pp, ii = d.split("-"); rd = m.get("round") or round_of(pp, int(ii))
     rounds[rd][0] += 1
     nt = r.get("note", "")
-    if any(k in nt for k in ("first run", "first attempt", "not a sequential", "not reachable", "needs a harvest", "race inside", "check catches it")):
+    if any(k in nt for k in ("first run", "first attempt", "not a sequential", "not reachable", "not reached", "MISSED", "needs a harvest", "race inside", "check catches it")):
         rounds[rd][1] += 1
     rounds[rd][2] += ok
     c += ok
